@@ -85,7 +85,7 @@ def regen_gen():
     return True, ""
 
 
-def coq_make(targets, timeout=3000):
+def coq_make(targets, timeout=900):
     """full .vo build of the given targets (never -vos)."""
     with Lock("coq"):
         ok, msg = regen_gen()
@@ -345,7 +345,7 @@ def prove(rep, module, theorems, extra_targets=()):
     return good == len(theorems)
 
 
-def coq_make_all(timeout=3000):
+def coq_make_all(timeout=900):
     with Lock("coq"):
         ok, msg = regen_gen()
         if not ok:
